@@ -38,12 +38,13 @@ type program struct {
 // Statement classes. Each writes only to its own tables so that a divergence
 // can be attributed to a class.
 const (
-	clsExplicit = "explicit"   // random(), randomblob(n), date/time functions with explicit 'now'
-	clsPlain    = "plain"      // deterministic statements
-	clsImplicit = "implicit"   // date/time functions whose time value is left implicit
-	clsSpace    = "space"      // whitespace between function name and '('
-	clsMultiTxt = "multi-text" // several statements in one SQL text
-	clsSubquery = "subquery"   // non-deterministic call inside a scalar sub-select
+	clsExplicit = "explicit"          // random(), randomblob(n), date/time functions with explicit 'now'
+	clsPlain    = "plain"             // deterministic statements
+	clsImplicit = "implicit"          // date/time functions whose time value is left implicit
+	clsSpace    = "space"             // whitespace between function name and '('
+	clsMultiTxt = "multi-text"        // several statements in one SQL text
+	clsSubquery = "subquery"          // non-deterministic call inside a scalar sub-select
+	clsAfterBad = "after-unparseable" // explicit non-deterministic call in a statement that follows, in the same request, a statement rqlite's own SQL parser rejects
 )
 
 var offsets = []int64{0, 400 * 86400, -(3*365*86400 + 17*60), 9 * 3600, -250 * 86400, 35 * 86400, -7 * 86400}
@@ -141,11 +142,12 @@ func genProgram(c *vf.Ctx, id int, nNodes int) program {
 		"CREATE TABLE "+px+"mst (id INTEGER PRIMARY KEY, v)",
 		"CREATE TABLE "+px+"sub (id INTEGER PRIMARY KEY, v)",
 		"CREATE TABLE "+px+"plain (id INTEGER PRIMARY KEY, v, w)",
+		"CREATE TABLE "+px+"aft (id INTEGER PRIMARY KEY, v, w)",
 	)
 	n := 8 + r.IntN(10)
 	for i := 0; i < n; i++ {
 		path := pick(r, "/db/execute", "/db/execute", "/db/execute?transaction", "/db/request", "/db/request?transaction", "/db/execute?queue&wait")
-		switch r.IntN(15) {
+		switch r.IntN(17) {
 		case 0, 1:
 			add(path, clsExplicit, fmt.Sprintf("INSERT INTO %sa(r, b, d, s) VALUES(%s, %s, %s, %s)", px, ndExpr(r), ndExpr(r), ndExpr(r), ndExpr(r)))
 		case 2:
@@ -177,6 +179,20 @@ func genProgram(c *vf.Ctx, id int, nNodes int) program {
 			add(path, clsSpace, fmt.Sprintf("INSERT INTO %sspc(v) VALUES(%s)", px, pick(r, "random ()", "RANDOM ()", "randomblob (8)", "datetime ('now')", "random\t()")))
 		case 14:
 			add(path, clsSubquery, fmt.Sprintf("INSERT INTO %ssub(v) VALUES((SELECT %s))", px, pick(r, "random() + 1", "datetime('now')", "hex(randomblob(4))")))
+		case 15:
+			// An earlier statement of the request is deterministic but not accepted by
+			// rqlite's SQL parser (SQLite accepts it), and mentions a function name
+			// only inside a string literal; the statement after it needs rewriting.
+			add(path, clsAfterBad,
+				fmt.Sprintf("INSERT INTO %splain(v, w) SELECT %d, 'random() date(''now'')' WHERE 1 IS NOT DISTINCT FROM 1", px, r.IntN(1000)),
+				fmt.Sprintf("INSERT INTO %saft(v, w) VALUES(%s, %s)", px, ndExpr(r), ndExpr(r)))
+		case 16:
+			// the same with a statement SQLite rejects too, in a request that is not
+			// transactional (the statements after the failing one still run)
+			add(pick(r, "/db/execute", "/db/request"), clsAfterBad,
+				fmt.Sprintf("INSRT INTO %splain(v) VALUES(random())", px),
+				fmt.Sprintf("INSERT INTO %saft(v, w) VALUES(%s, %d)", px, ndExpr(r), i),
+				fmt.Sprintf("UPDATE %saft SET w = %s WHERE id = (SELECT max(id) FROM %saft)", px, ndExpr(r), px))
 		case 13:
 			add(pick(r, "/db/execute", "/db/request"), clsMultiTxt, fmt.Sprintf("INSERT INTO %smst(v) VALUES(%d); INSERT INTO %smst(v) VALUES(%s)", px, i, px, pick(r, "random()", "datetime('now')", "1")))
 		}
@@ -309,6 +325,8 @@ func tableClass(t string) string {
 		return clsMultiTxt
 	case strings.HasSuffix(t, "_sub"):
 		return clsSubquery
+	case strings.HasSuffix(t, "_aft"):
+		return clsAfterBad
 	case strings.HasSuffix(t, "_plain"), t == "marker":
 		return clsPlain
 	default:
